@@ -13,17 +13,17 @@ package simsched
 import (
 	"fmt"
 	"runtime"
-	"sync"
 	"sync/atomic"
 )
 
 type task struct {
-	id     int
-	name   string
-	wake   parker
-	done   bool
-	parked string // site at which the task is waiting for the token
+	id       int
+	name     string
+	wake     parker
+	done     bool
+	parked   string // site at which the task is waiting for the token
 	lockWait bool
+	gid      uint64 // goroutine id (simrace hand-off only)
 }
 
 type Sim struct {
@@ -48,7 +48,6 @@ type Sim struct {
 
 var (
 	active atomic.Pointer[Sim]
-	gidMap sync.Map // goroutine id -> *task (only while a Sim is active)
 )
 
 //go:norace
@@ -81,10 +80,7 @@ func curTask() (*Sim, *task) {
 	if s == nil {
 		return nil, nil
 	}
-	if t, ok := gidMap.Load(goid()); ok {
-		return s, t.(*task)
-	}
-	return s, nil
+	return s, lookupTask(s)
 }
 
 // Options of one simulated run.
@@ -130,7 +126,7 @@ func Run(o Options, names []string, bodies []func()) Result {
 	s.mu.Unlock()
 	first.wake.wake()
 	<-s.finished
-	gidMap.Range(func(k, v interface{}) bool { gidMap.Delete(k); return true })
+	clearTasks()
 	return Result{Steps: s.steps, Switches: s.preempts, Signature: s.sigHash, Deadlock: s.deadlock, Trace: s.Trace, Panic: s.panicVal}
 }
 
@@ -141,7 +137,7 @@ func (s *Sim) spawnLocked(name string, body func()) *task {
 	s.tasks = append(s.tasks, t)
 	s.liveCount++
 	go func() {
-		gidMap.Store(goid(), t)
+		regTask(t)
 		t.wake.wait() // wait for the token
 		defer func() {
 			if r := recover(); r != nil {
@@ -203,7 +199,9 @@ func (s *Sim) record(t *task, site string) {
 	}
 	s.sigHash = h
 	if len(s.Trace) < s.traceCap {
-		s.Trace = append(s.Trace, fmt.Sprintf("%s@%s", t.name, site))
+		// plain concatenation: fmt's printer pool (sync.Pool) would hand the race detector
+		// happens-before edges between the tasks at every traced step
+		s.Trace = append(s.Trace, t.name+"@"+site)
 	}
 }
 
@@ -241,7 +239,7 @@ func (s *Sim) exit(t *task) {
 	s.mu.Lock()
 	t.done = true
 	s.liveCount--
-	gidMap.Delete(goid())
+	unregTask(t)
 	nxt := s.pickLocked(nil)
 	if nxt == nil {
 		s.cur = nil
